@@ -137,6 +137,9 @@ def check_truetype(tables, composite_bounds=None):
         if mcd != cdepth: P.append("maxp.maxComponentDepth %d != %d" % (mcd, cdepth))
     if b"hhea" in tables and b"hmtx" in tables:
         P += check_hmetrics(tables[b"hhea"], tables[b"hmtx"], n, boxes, "h")
+    if b"vhea" in tables and b"vmtx" in tables:
+        # same layout: the count of long metrics at offset 34, trailing equal advances trimmed (extents are not recomputed here)
+        P += check_hmetrics(tables[b"vhea"], tables[b"vmtx"], n, None, "v")
     return P
 
 def check_hmetrics(hhea, hmtx, n, boxes, which, minimal=True):
